@@ -94,8 +94,22 @@ const netHTTPMws = `func mws(t *labrt.Trace, o labrt.Options) []MiddlewareFunc {
 }
 `
 
-func netHTTPMount(optType string) string {
-	return `	opts := ` + optType + `{BaseURL: o.BaseURL, Middlewares: mws(t, o)}
+// netHTTPMount: the four entry points of the net/http flavours. "from_mux" / "from_mux_base" register the routes on a
+// router the caller made and serve THAT router (what a program does with its own mux); "plain" is Handler(si).
+func netHTTPMount(optType, newRouter string) string {
+	return `	switch o.Entry {
+	case "plain":
+		return Handler(SI), nil
+	case "from_mux":
+		router := ` + newRouter + `
+		HandlerFromMux(SI, router)
+		return router, nil
+	case "from_mux_base":
+		router := ` + newRouter + `
+		HandlerFromMuxWithBaseURL(SI, router, o.BaseURL)
+		return router, nil
+	}
+	opts := ` + optType + `{BaseURL: o.BaseURL, Middlewares: mws(t, o)}
 	if o.ErrorHandler {
 		opts.ErrorHandlerFunc = func(w http.ResponseWriter, r *http.Request, err error) {
 			t.Add("errhandler", fmt.Sprintf("%T", err), map[string]any{"msg": err.Error()})
@@ -117,20 +131,24 @@ var fwTable = map[string]fwInfo{
 			e.DefaultHTTPErrorHandler(err, c)
 		}
 	}
-	RegisterHandlersWithBaseURL(e, SI, o.BaseURL)
+	if o.Entry == "plain" {
+		RegisterHandlers(e, SI)
+	} else {
+		RegisterHandlersWithBaseURL(e, SI, o.BaseURL)
+	}
 	return e, nil
 `,
 		mws:      "",
 		strictFn: "ctx echo.Context, request interface{}", strictArg: "ctx, request",
 	},
-	"chi": {imports: ``, ctxParams: 2, respond: "w.WriteHeader(204)", scope: "r.Context().Value(%s)",
-		mount: netHTTPMount("ChiServerOptions"), mws: netHTTPMws,
+	"chi": {imports: `"github.com/go-chi/chi/v5"`, ctxParams: 2, respond: "w.WriteHeader(204)", scope: "r.Context().Value(%s)",
+		mount: netHTTPMount("ChiServerOptions", "chi.NewRouter()"), mws: netHTTPMws,
 		strictFn: "ctx context.Context, w http.ResponseWriter, r *http.Request, request interface{}", strictArg: "ctx, w, r, request"},
-	"gorilla": {imports: ``, ctxParams: 2, respond: "w.WriteHeader(204)", scope: "r.Context().Value(%s)",
-		mount: netHTTPMount("GorillaServerOptions"), mws: netHTTPMws,
+	"gorilla": {imports: `"github.com/gorilla/mux"`, ctxParams: 2, respond: "w.WriteHeader(204)", scope: "r.Context().Value(%s)",
+		mount: netHTTPMount("GorillaServerOptions", "mux.NewRouter()"), mws: netHTTPMws,
 		strictFn: "ctx context.Context, w http.ResponseWriter, r *http.Request, request interface{}", strictArg: "ctx, w, r, request"},
 	"stdhttp": {imports: ``, ctxParams: 2, respond: "w.WriteHeader(204)", scope: "r.Context().Value(%s)",
-		mount: netHTTPMount("StdHTTPServerOptions"), mws: netHTTPMws,
+		mount: netHTTPMount("StdHTTPServerOptions", "http.NewServeMux()"), mws: netHTTPMws,
 		strictFn: "ctx context.Context, w http.ResponseWriter, r *http.Request, request interface{}", strictArg: "ctx, w, r, request"},
 	"gin": {imports: `"github.com/gin-gonic/gin"`, ctxParams: 1, respond: "c.Status(204)",
 		scope: "func() any { v, _ := c.Get(%s); return v }()",
@@ -143,7 +161,11 @@ var fwTable = map[string]fwInfo{
 			c.JSON(code, gin.H{"msg": err.Error()})
 		}
 	}
-	RegisterHandlersWithOptions(r, SI, opts)
+	if o.Entry == "plain" {
+		RegisterHandlers(r, SI)
+	} else {
+		RegisterHandlersWithOptions(r, SI, opts)
+	}
 	return r, nil
 `,
 		mws: `func mws(t *labrt.Trace, o labrt.Options) []MiddlewareFunc {
@@ -164,7 +186,11 @@ var fwTable = map[string]fwInfo{
 	"fiber": {imports: `"github.com/gofiber/fiber/v2"`, ctxParams: 1, respond: "return c.SendStatus(204)",
 		scope: "c.Context().UserValue(%s)",
 		mount: `	app := fiber.New()
-	RegisterHandlersWithOptions(app, SI, FiberServerOptions{BaseURL: o.BaseURL, Middlewares: mws(t, o)})
+	if o.Entry == "plain" {
+		RegisterHandlers(app, SI)
+	} else {
+		RegisterHandlersWithOptions(app, SI, FiberServerOptions{BaseURL: o.BaseURL, Middlewares: mws(t, o)})
+	}
 	return labrt.RespFunc(func(r *http.Request) (*http.Response, error) { return app.Test(r, -1) }), nil
 `,
 		mws: `func mws(t *labrt.Trace, o labrt.Options) []MiddlewareFunc {
@@ -187,7 +213,11 @@ var fwTable = map[string]fwInfo{
 		scope: "ctx.Values().Get(%s)",
 		mount: `	app := iris.New()
 	app.Logger().SetLevel("disable")
-	RegisterHandlersWithOptions(app, SI, IrisServerOptions{BaseURL: o.BaseURL, Middlewares: mws(t, o)})
+	if o.Entry == "plain" {
+		RegisterHandlers(app, SI)
+	} else {
+		RegisterHandlersWithOptions(app, SI, IrisServerOptions{BaseURL: o.BaseURL, Middlewares: mws(t, o)})
+	}
 	if err := app.Build(); err != nil {
 		return nil, err
 	}
